@@ -141,6 +141,7 @@ func checkC18(w *World, r *Report) {
 	r.Rule("R18.2", "+tls selects TLS in every implementation chosen for a +tls scheme; Addr() resolves admitted schemes", 6)
 	r.Rule("R18.3", "one dispatcher per configuration type, whatever the input form", 4)
 	r.Rule("R18.4", "no nil dereference in the parsing cone", 4)
+	r.Rule("R18.5", "Connect never rewrites the configured scheme (reconnects see the same address)", 5)
 
 	sws := findSchemeSwitches(w)
 	byFn := map[string][]schemeSwitch{}
@@ -226,6 +227,71 @@ func checkC18(w *World, r *Report) {
 	c18Addr(w, r, byFn)
 	c18OneDispatcher(w, r, sws)
 	c18NilDeref(w, r)
+	c18SchemeImmutable(w, r)
+}
+
+// c18SchemeImmutable: R18.5 — an upstream's Connect runs again on every
+// reconnect, so it must not rewrite the configured scheme: stripping "+tls"
+// in place turns the second attempt into a plaintext dial.
+func c18SchemeImmutable(w *World, r *Report) {
+	ui := w.Interface("internal/client/upstream", "Upstream")
+	if ui == nil {
+		r.Undecided("R18.5", "anchor", "-", "anchor unresolved: upstream.Upstream")
+		return
+	}
+	seenM := map[*types.Func]bool{}
+	for _, n := range w.Implementers(ui) {
+		m := methodOf(n, "Connect")
+		if m == nil || seenM[m] {
+			continue
+		}
+		seenM[m] = true
+		key := "type:" + qualName(n) + "|scheme-immutable"
+		bad := ""
+		seen := map[*ssa.Function]bool{}
+		var walk func(f *ssa.Function, recv ssa.Value, d int)
+		walk = func(f *ssa.Function, recv ssa.Value, d int) {
+			if f == nil || seen[f] || d > 2 || len(f.Blocks) == 0 {
+				return
+			}
+			seen[f] = true
+			allInstrs(f, func(in ssa.Instruction) {
+				st, ok := in.(*ssa.Store)
+				if !ok {
+					return
+				}
+				fa, ok := st.Addr.(*ssa.FieldAddr)
+				if !ok {
+					return
+				}
+				fv := fieldVarOf(fa)
+				if fv == nil || fv.Name() != "Scheme" || fv.Pkg() == nil || fv.Pkg().Path() != "net/url" {
+					return
+				}
+				// base of the address chain
+				base := ssa.Value(fa)
+				for i := 0; i < 8; i++ {
+					if f2, ok := base.(*ssa.FieldAddr); ok {
+						base = f2.X
+						continue
+					}
+					break
+				}
+				if base == recv {
+					bad = fmt.Sprintf("%s: Connect rewrites the scheme of the upstream's configured address: the next (re)connect no longer sees the +tls suffix and dials in plaintext", w.Pos(st.Pos()))
+				}
+			})
+			for _, c := range callsIn(f) {
+				if sc := c.Common().StaticCallee(); sc != nil && inModule(sc) && len(c.Common().Args) > 0 && c.Common().Args[0] == recv && len(sc.Params) > 0 {
+					walk(sc, sc.Params[0], d+1)
+				}
+			}
+		}
+		if fn := w.SSAFunc(m); fn != nil && len(fn.Params) > 0 {
+			walk(fn, fn.Params[0], 0)
+		}
+		r.Check(bad == "", "R18.5", key, w.Pos(m.Pos()), "Connect works on a copy: the configured scheme is never written", bad)
+	}
 }
 
 // c18PlusTls: every type constructed for a "+tls" scheme tests the scheme for
